@@ -72,6 +72,21 @@ def lift(c, hx):
     return [str(e) for e in c.eh.get_instr_expr(i, c.X.ExprInt32(len(hx) // 2), [])]
 
 
+def lift_w(c, hx):
+    """lift with every constant and identifier width visible (str() hides the width of constants), then evaluate the list on a fresh machine"""
+    from .. import irsem
+    i = c.ia32.x86mnemo.dis(bytes.fromhex(hx))
+    lst = c.eh.get_instr_expr(i, c.X.ExprInt32(len(hx) // 2), [])
+    out = [repr(irsem.to_neutral(e)) for e in lst]
+    m = c.eh.x86_machine()
+    try:
+        m.eval_instr(lst)
+        out.append(dump(m))
+    except Exception as ex:
+        out.append('EVAL-EXC:%s' % type(ex).__name__)
+    return out
+
+
 def shared_expr(c, key):
     """expressions built ONCE per process on the module-level register singletons and re-used by later calls"""
     if key not in c.objs:
@@ -161,6 +176,24 @@ CALLS = [
     ('A.eval_instr eax=eax+1 (documented state change)', lambda c: (machine(c, 'A').eval_instr([c.X.ExprAff(c.sem.eax, c.sem.eax + c.X.ExprInt32(1))]), None)[1]),
     ('setdstflow on decoded jmp (documented output parameter)', lambda c: (shared_expr(c, 'i_jmp').setdstflow([c.X.ExprId('lbl')]), None)[1]),
 ]
+# Wide alphabet: used as histories of length 1 and as probes after them (all ordered pairs), not in the longer histories.
+# Lifts of instructions whose lifters take defaults / optional arguments / size-dependent paths, under every prefix variant,
+# and assembler lines that are prefixes, fragments or rejected input next to the lines they could leak into.
+NARROW = len(CALLS)
+WIDE_LIFTS = ['c3', '66c3', 'c20800', '66c20800', 'cb', '66cb', 'ca0400', 'c9', '66c9', 'c8080000', '6a05', '666a05', '6805000000', '58', '6658', '8f00', '668f00',
+              'e805000000', 'ff10', 'eb05', '7405', 'e2fe', '67e2fe', 'e305', '67e305', 'a4', 'f3a4', '66a5', '67a5', 'aa', 'f3ab', 'ae', 'f2ae', 'a6', 'f3a6', 'ac',
+              'd7', '67d7', '0fa318', '660fa318', '0fba2005', 'c1e005', 'd3e0', 'c0e000', '0fa4d805', '0fa5d8', 'f7f3', 'f6f3', '99', '6699', '98', '6698', '9c', '9d',
+              'cd80', 'cc', 'c406', '66c406', '8cc0', '8ec0', '06', '07', '0fa2', '0f31', 'd9e8', 'dec1', '0f6fc1', '660f6fc1', 'f30f6fc1']
+WIDE_ASM = ['rep', 'repz', 'repe', 'repnz', 'lock', '', 'ret', 'rep movsd', 'repnz scasb', 'lock inc DWORD PTR [eax]', 'movsd', 'nop', 'push', 'mov eax,',
+            'mov ax, -1', 'mov eax, DWORD PTR fs:[eax]', 'fs', 'notrack jmp eax', 'notrack', 'jmp eax', 'mov eax, ebx']
+WIDE_ATT = ['rep', 'lock', 'ret', 'rep movsl', 'lock incl (%eax)', 'movsl', 'fnstsw %ax', 'fnstsw', 'movl %fs:(%eax), %eax', 'movl %eax, %ebx']
+for _hx in WIDE_LIFTS:
+    CALLS.append(('wlift %s' % _hx, (lambda c, _hx=_hx: lift_w(c, _hx))))
+for _l in WIDE_ASM:
+    CALLS.append(('wasm %r' % _l, (lambda c, _l=_l: hexs(c.ia32.x86mnemo.asm(_l)))))
+for _l in WIDE_ATT:
+    CALLS.append(('wasm_att %r' % _l, (lambda c, _l=_l: hexs(c.ia32.x86mnemo.asm_att(_l)))))
+
 # calls whose own result legitimately depends on the explicit machine state they mutate: never used as probes
 NOT_PROBES = {'A.eval_instr eax=eax+1 (documented state change)', 'setdstflow on decoded jmp (documented output parameter)',
               'A.eval eax (bound)', 'A.eval shared eax+ebx'}
@@ -332,18 +365,21 @@ def kind_of(name):
 def shard(s, ns, tier, seed):
     c = make_ctx()
     part = core.Part()
-    probes = [i for i, (n, f) in enumerate(CALLS) if n not in NOT_PROBES]
-    base_outs, base_fp, base = fork_history(c, (), probes)
+    probes_all = [i for i, (n, f) in enumerate(CALLS) if n not in NOT_PROBES]
+    probes_narrow = [i for i in probes_all if i < NARROW]
+    base_outs, base_fp, base = fork_history(c, (), probes_all)
     depth = 2 if tier == 'quick' else 3
     part.fps = {(): base_fp}
     part.fails = []
     k = 0
-    deep = [i for i, (n, f) in enumerate(CALLS) if n not in DEPTH3_DROP]
+    deep = [i for i, (n, f) in enumerate(CALLS) if n not in DEPTH3_DROP and i < NARROW]
     for d in range(1, depth + 1):
-        for hist in itertools.product(range(len(CALLS)) if d < 3 else deep, repeat=d):
+        for hist in itertools.product(range(len(CALLS)) if d == 1 else range(NARROW) if d == 2 else deep, repeat=d):
             k += 1
             if k % ns != s:
                 continue
+            # histories of one call are probed by the whole (wide) alphabet, longer ones by the narrow alphabet
+            probes = probes_all if d == 1 else probes_narrow
             outs, fp, res = fork_history(c, hist, probes)
             part.fps[hist] = fp
             part.transitions += 1
@@ -816,7 +852,7 @@ def run(tier, seed):
     part.counters['histories'] = len(fps) - 1
     part.counters['probes_per_history'] = len([1 for n, f in CALLS if n not in NOT_PROBES])
     depth = 2 if tier == 'quick' else 3
-    rule = ('history exploration: alphabet of %d API calls (dis, asm, asm_att incl. raising ones, lift, expr_simp / eval_expr on expressions built on '
+    rule = ('history exploration: alphabet of %d API calls, of which ' + str(NARROW) + ' in the histories of length >= 2 and the rest (width-aware lifts of ' + str(len(WIDE_LIFTS)) + ' instructions under their prefix variants, ' + str(len(WIDE_ASM) + len(WIDE_ATT)) + ' assembler lines that are bare prefixes, fragments or rejected input) as histories of length 1 probed by the whole alphabet (dis, asm, asm_att incl. raising ones, lift, expr_simp / eval_expr on expressions built on '
             'the module-level register singletons and shared between calls, eval on machines with bound/absent registers and memory, emulation, '
             'eval_instr, instruction objects held across calls); ALL histories of length 1..%d (thorough: length 3 over the alphabet without 15 near-duplicate calls), each run in a forked child of a pristine image; after the history each of the %d probes runs '
             'in its own grand-child and must equal its pristine result; a call repeated within a history must repeat its result. states = distinct '
